@@ -146,6 +146,8 @@ pub trait G:
         w: &RangeWitness,
         rng: &mut HRng,
     ) -> Result<RangeProof<Self>, ProofError>;
+    /// The `prove` entry point that takes its randomness from the operating system
+    fn prove_os(t: &mut Transcript, st: &RangeStatement<Self>, w: &RangeWitness) -> Result<RangeProof<Self>, ProofError>;
     fn verify(
         ts: &mut [Transcript],
         sts: &[RangeStatement<Self>],
@@ -204,6 +206,10 @@ macro_rules! impl_lib_api {
             rng: &mut HRng,
         ) -> Result<RangeProof<Self>, ProofError> {
             RangeProof::prove_with_rng(t, st, w, rng)
+        }
+
+        fn prove_os(t: &mut Transcript, st: &RangeStatement<Self>, w: &RangeWitness) -> Result<RangeProof<Self>, ProofError> {
+            RangeProof::prove(t, st, w)
         }
 
         fn verify(
